@@ -24,6 +24,8 @@ F1_WHAT = ("_compute_eigen keeps the order np.linalg.eig returns: eigenvalues un
 # ---------------------------------------------------------------- generators
 def gen_matrices(rng, quick):
     out = []
+    out.append(("exact-tie", np.diag([4.0, 2.0, 1.0, 1.0])))      # cumulative ratio 0.5 exactly: fraction 0.5 keeps ONE
+    out.append(("exact-tie", np.diag([3.0, 1.0])))                # 0.75 exactly
     spectra3 = [[1, 3, 2], [5, 0.5, 2.25], [4, 1, 0]]
     spectra4 = [[1, 4, 2, 3]] if quick else [[1, 4, 2, 3], [7, 0.25, 3, 1]]
     for sp in spectra3 + spectra4:
@@ -58,9 +60,9 @@ def gen_matrices(rng, quick):
 
 def gen_sels(rng, n, quick):
     sels = [None] + list(range(1, n + 1))
-    fr = [0.5, 0.8, 0.95, 0.999] + [float(np.round(rng.uniform(0.05, 0.99), 3)) for _ in range(2)]
+    fr = [0.5, 0.75, 0.8, 0.95, 0.999] + [float(np.round(rng.uniform(0.05, 0.99), 3)) for _ in range(2)]
     sels += fr
-    if quick and len(sels) > 6:
+    if quick and len(sels) > 6 and n > 4:
         idx = sorted(set([0, 1, len(sels) - 1] + list(rng.choice(len(sels), 4, replace=False))))
         sels = [sels[i] for i in idx]
     return sels
@@ -80,11 +82,24 @@ def spec_term(vals, vecs):
 
 
 def frac_ambiguous(vals_sorted_clipped, p):
+    """A cumulative variance ratio within 1e-9 of the requested fraction is ambiguous in floating point —
+    unless the tie is EXACT both in rational arithmetic and in the float computation (e.g. diag(4,2,1,1), 0.5)."""
+    from fractions import Fraction
     tot = vals_sorted_clipped.sum()
     if tot <= 0:
         return True
-    cs = np.cumsum(vals_sorted_clipped) / tot
-    return bool(np.any(np.abs(cs - p) < 1e-9))
+    csum = np.cumsum(vals_sorted_clipped)
+    cs = csum / tot
+    near = np.abs(cs - p) < 1e-9
+    if not np.any(near):
+        return False
+    ftot = sum(Fraction(float(v)) for v in vals_sorted_clipped)
+    acc = Fraction(0)
+    for v, c, nr in zip(vals_sorted_clipped, cs, near):
+        acc += Fraction(float(v))
+        if nr and not (acc == Fraction(float(p)) * ftot and c == p):
+            return True
+    return False
 
 
 # ---------------------------------------------------------------- helper level
@@ -227,14 +242,38 @@ def api_fit(kind, method, data, s):
         return np.asarray(f.eigenvalues, dtype=float), np.hstack(parts)
 
 
+def pairing_monitor(rep, data, val, fun, s, grid):
+    """Each eigenfunction stays paired with ITS eigenvalue: C (w . phi_k) = lambda_k phi_k (covariance method)."""
+    from FDApy.misc.utils import _integration_weights
+    x = np.asarray(data.argvals["input_dim_0"], float)
+    w = _integration_weights(x, method="trapz")
+    with warnings.catch_warnings():
+        warnings.simplefilter("ignore")
+        Csurf = np.asarray(data.covariance().values)[0]
+    cs = max(1e-300, float(np.max(np.abs(Csurf))))
+    for k in range(len(val)):
+        phi = fun[k]
+        if not np.all(np.isfinite(phi)):
+            continue
+        r = Csurf @ (w * phi) - val[k] * phi
+        if np.max(np.abs(r)) > 1e-7 * cs * max(1.0, float(np.max(np.abs(phi)))) * max(1.0, np.ptp(x)):
+            rep.violation(f"UFPCA(covariance) n_components={s}: eigenfunction {k} is not paired with eigenvalue {k} "
+                          f"(integral eigen-equation residual {np.max(np.abs(r)):.3g})",
+                          {"level": "api", "grid": grid, "sel": s, "eigenvalues": [float(v) for v in val],
+                           "data_values": C.hexf(np.asarray(data.values))})
+            return
+
+
 def api_level(rep, rng, quick):
     from FDApy.representation.functional_data import MultivariateFunctionalData
     run = C.CoqRun("C01", IMPORTS)
     cases = []
-    n_data = 8 if quick else 80
+    n_data = 10 if quick else 80
     for i in range(n_data):
         n = int(rng.integers(4, 9 if quick else 20))
         m = int(rng.integers(5, 10 if quick else 30))
+        if i >= n_data - 2:
+            n, m = (40, 9) if i % 2 else (12, 9)       # many rough curves on few points: eig returns unsorted spectra
         grid = ["uniform", "nonuniform", "doy"][i % 3]
         rough = (i % 2 == 0)
         kind = "UFPCA" if i % 4 != 3 else "MFPCA"
@@ -254,6 +293,8 @@ def api_level(rep, rng, quick):
                 good = np.isfinite(full_fun).all(axis=1) & np.isfinite(full_val)
             else:
                 good = np.ones(len(full_val), dtype=bool)
+            if kind == "UFPCA" and method == "covariance":
+                pairing_monitor(rep, data, full_val, full_fun, None, grid)
             rank = int(np.sum(full_val > 1e-10 * max(1e-300, full_val.max())))
             sels = [1, 2, max(1, min(rank, 3)), 0.6, 0.9, 0.99]
             if not quick:
@@ -269,6 +310,8 @@ def api_level(rep, rng, quick):
                                    "values": C.hexf(np.asarray(data.values if kind == 'UFPCA' else data.data[0].values))})
                     continue
                 k = len(val)
+                if kind == "UFPCA" and method == "covariance":
+                    pairing_monitor(rep, data, val, fun, s, grid)
                 if k > len(full_val) or not good[:max(k, 1)].all() or not good.all():
                     # NaN eigenfunctions (division by sqrt(0)) are a C02/C03 matter; compare values only
                     fv = np.where(np.isfinite(full_fun), full_fun, 0.0); fn = np.where(np.isfinite(fun), fun, 0.0)
